@@ -506,7 +506,16 @@ def run_bounded(ctx):
         "all of one partition dir|none, sort_pnames), write_row_groups(frame, rgo, sort_key none|new-first|by-dir, "
         "sort_pnames); frames F6/F4 (both partitions), P2/P1 (one existing partition), P3 (new partition), row ids "
         "unique per step; fresh open before every operation and for every check.  Operations on a partitioned "
-        "dataset that has become empty are refused by the library (ValueError) and leave the model unchanged."))
+        "dataset that has become empty are refused by the library (ValueError) and leave the model unchanged.  "
+        "SECOND FAMILY (partition keys that can be confused): p and q both strings over the SAME value set {u,v} (+w new), "
+        f"partition_on in {UV_PARTS} (both orders of the two columns), original U8 (all four partitions twice) with "
+        f"row_group_offsets none|list and columns in natural or q_p_last order; every later frame handed over with its "
+        f"columns in one of {len(C09_ORDERS)} orders {list(C09_ORDERS)} (partition columns before/after/between the data "
+        "columns, q before p), so that the frame's column order differs from the partition_on order; alphabet of 11 "
+        "operations (5 overwrites: one asymmetric partition (u,v), its mirror (v,u), both, one value of p, two new mirror "
+        "partitions; 2 appends, 2 removals, 2 write_row_groups); all single operations everywhere, all pairs for the "
+        "interleaved order on 2-column partitionings and a third of the overwrite-containing pairs elsewhere (thorough: "
+        "all pairs + seeded 4/5-step histories); plus the first family's frames on partition_on=(q,p) with permuted columns."))
     specs = enumerate_specs(ctx.tier, ctx.seed)
     results = pool_map(_worker, specs, chunksize=8)
     for spec, (what, info) in zip(specs, results):
